@@ -10,7 +10,7 @@ TInit == est = 0 /\ data = 0 /\ res = [m \in Methods |-> 0] /\ l = 1 /\ st = "re
 Reset == /\ st = "reset" /\ l <= Len(Trace)
          /\ est' = 0 /\ data' = Trace[l].d0 /\ res' = [m \in Methods |-> 0] /\ st' = "run" /\ UNCHANGED l
 NextSt(k) == IF k > Len(Trace) THEN "end" ELSE IF Trace[k].i = 1 THEN "reset" ELSE "run"
-Act(e) == IF e.op = "fit" THEN Fit(e) ELSE Apply(e)
+Act(e) == IF e.op = "fit" THEN Fit(e) ELSE IF e.op = "fit2" THEN Fit2(e) ELSE Apply(e)
 Step == /\ st = "run" /\ l <= Len(Trace)
         /\ LET e == Trace[l] IN
              \/ /\ Act(e) /\ l' = l + 1 /\ st' = NextSt(l + 1)
